@@ -77,6 +77,7 @@ func (m *Machine) vndCall(name string, args []Value, caller *frame) Value {
 			if ov, has := paramOverride[pn]; has {
 				v = ov
 			}
+			m.paramsSeen[pn] = v
 		}
 		m.nondet = append(m.nondet, ndItem{K: "param", V: uint64(v)})
 		return st.Const(64, uint64(v))
